@@ -1,0 +1,13 @@
+//go:build verif
+
+package pool
+
+// Contracts checked / assumed by /verif/gvc. Comment-only file (build tag verif).
+
+// sync.Pool is outside the verifier's reach (interface{} round trip, runtime internals). The
+// assumed contract states what its callers rely on: a non-nil metric that nothing else the
+// caller holds refers to.
+//@ func (*MetricPool).Get
+//@   trusted
+//@   requires mp != nil
+//@   ensures  result != nil && fresh(result)
